@@ -170,13 +170,43 @@ func (f *verifC19Fix) digest() string {
 	return fmt.Sprintf("%s/%d/%d/%d", x, lc, len(txs), n)
 }
 
+// verifC19OpenConversation makes the node itself send the request of the given kind on the connection and returns the
+// id of the conversation that is now open (live).
+func verifC19OpenConversation(t *testing.T, f *verifC19Fix, c *grpc.StubConnection, kind string, lcReq uint32) []byte {
+	var err error
+	switch kind {
+	case "live-state":
+		x, _ := f.state.XOR(dag.MaxLamportClock)
+		err = f.p.sendState(c, x, lcReq)
+	case "live-listquery":
+		err = f.p.sendTransactionListQuery(c, []hash.SHA256Hash{f.pendingPublic.Ref(), f.pendingPrivate.Ref(), f.orphan.Ref(), f.child.Ref()})
+	case "live-rangequery":
+		err = f.p.sendTransactionRangeQuery(c, 0, dag.MaxLamportClock)
+	default:
+		t.Fatalf("harness: unknown conversation kind %s", kind)
+	}
+	if err != nil || len(c.SentMsgs) == 0 {
+		t.Fatalf("harness: could not open a %s conversation: %v", kind, err)
+	}
+	switch m := c.SentMsgs[len(c.SentMsgs)-1].(*Envelope).Message.(type) {
+	case *Envelope_State:
+		return m.State.ConversationID
+	case *Envelope_TransactionListQuery:
+		return m.TransactionListQuery.ConversationID
+	case *Envelope_TransactionRangeQuery:
+		return m.TransactionRangeQuery.ConversationID
+	}
+	t.Fatalf("harness: unexpected request sent for %s", kind)
+	return nil
+}
+
 func TestVerifC19V2(t *testing.T) {
 	logrus.SetOutput(io.Discard)
 	logrus.SetLevel(logrus.PanicLevel)
 	r := ev.Start(t, "C19")
 	defer r.Finish()
 	s := crash.NewSweep(r, "C19")
-	r.Rule("v2 handlers: for each of the nine message types every combination of per-field alphabets (byte strings of length 0/1/31/32/33 and refs of present/absent/private transactions; clocks and range bounds {0,1,PageSize-1,PageSize,PageSize+1,2*PageSize,MaxUint32-1,MaxUint32}; IBLTs {empty,1 byte,truncated,valid,valid of another set,all 0xff,one byte too long,one bucket short}; conversation ids {empty,unknown,live: obtained by making the node ask first}; transaction lists over {valid new, valid without payload, private, known, orphan, wrong payload, garbage, truncated, JSON-serialised}) x configuration {node DID unset, set} x peer {anonymous, authenticated}; each message is marshalled and unmarshalled before it is handled")
+	r.Rule("v2 handlers: for each of the nine message types every combination of per-field alphabets (byte strings of length 0/1/31/32/33 and refs of present/absent/private transactions; clocks and range bounds {0,1,PageSize-1,PageSize,PageSize+1,2*PageSize,MaxUint32-1,MaxUint32}; IBLTs {empty,1 byte,truncated,valid,valid of another set,all 0xff,one byte too long,one bucket short}; conversation ids {empty, unknown, live: obtained by making the node ask first - EVERY kind of open conversation (State, TransactionListQuery, TransactionRangeQuery) is offered to EVERY response handler (TransactionSet, TransactionList), not only the matching one}; transaction lists over {valid new, valid without payload, private, known, orphan, wrong payload, garbage, truncated, JSON-serialised}) x configuration {node DID unset, set} x peer {anonymous, authenticated}; each message is marshalled and unmarshalled before it is handled")
 
 	bytesAlpha := func(f *verifC19Fix) map[string][]byte {
 		return map[string][]byte{"len0": {}, "len1": {1}, "len31": bytes.Repeat([]byte{3}, 31), "len32-absent": bytes.Repeat([]byte{4}, 32), "len33": bytes.Repeat([]byte{5}, 33),
@@ -336,8 +366,11 @@ func TestVerifC19V2(t *testing.T) {
 				"one-too-long": append(append([]byte{}, ownB...), 0), "bucket-short": ownB[:len(ownB)-44], "bucket-long": append(append([]byte{}, ownB...), make([]byte, 44)...), "all-01": bytes.Repeat([]byte{1}, len(ownB))}
 		}
 		for _, ik := range keysOf(iblts(fix)) {
-			for _, cidKind := range []string{"live", "unknown", "empty"} {
+			for _, cidKind := range []string{"live-state", "live-listquery", "live-rangequery", "unknown", "empty"} {
 				for _, lcReq := range clocks {
+					if (cidKind == "live-listquery" || cidKind == "live-rangequery") && lcReq != 0 && lcReq != dag.PageSize {
+						continue // wrong-kind conversations: two request clocks suffice
+					}
 					for _, lc := range []uint32{0, 1, dag.PageSize, math.MaxUint32} {
 						ik, cidKind, lcReq, lc := ik, cidKind, lcReq, lc
 						run("v2.handleTransactionSet", fmt.Sprintf("iblt=%s/cid=%s/lcreq=%d/lc=%d", ik, cidKind, lcReq, lc), func(f *verifC19Fix, c *grpc.StubConnection) (*Envelope, handleFunc) {
@@ -345,12 +378,8 @@ func TestVerifC19V2(t *testing.T) {
 							switch cidKind {
 							case "unknown":
 								cid = []byte("unknown-cid")
-							case "live":
-								x, _ := f.state.XOR(dag.MaxLamportClock)
-								if err := f.p.sendState(c, x, lcReq); err != nil || len(c.SentMsgs) == 0 {
-									t.Fatalf("harness: could not open a State conversation: %v", err)
-								}
-								cid = c.SentMsgs[len(c.SentMsgs)-1].(*Envelope).GetState().ConversationID
+							case "live-state", "live-listquery", "live-rangequery":
+								cid = verifC19OpenConversation(t, f, c, cidKind, lcReq)
 							}
 							return &Envelope{Message: &Envelope_TransactionSet{TransactionSet: &TransactionSet{ConversationID: cid, LCReq: lcReq, LC: lc, IBLT: iblts(f)[ik]}}}, f.p.handleTransactionSet
 						})
@@ -372,7 +401,7 @@ func TestVerifC19V2(t *testing.T) {
 		lists := [][]string{{}, {"new"}, {"new-nopayload"}, {"new-wrongpayload"}, {"new-private"}, {"new-private-payload"}, {"known"}, {"orphan"}, {"garbage"}, {"empty"}, {"truncated"}, {"two-dots"}, {"json"}, {"ff"},
 			{"new", "new"}, {"new", "garbage"}, {"garbage", "new"}, {"new", "new-private"}, {"known", "new", "orphan"}, {"new-private", "empty"}}
 		for _, list := range lists {
-			for _, cidKind := range []string{"live-listquery", "live-rangequery", "unknown", "empty"} {
+			for _, cidKind := range []string{"live-listquery", "live-rangequery", "live-state", "unknown", "empty"} {
 				for _, nums := range [][2]uint32{{1, 1}, {0, 0}, {1, 2}, {2, 1}, {math.MaxUint32, math.MaxUint32}} {
 					list, cidKind, nums := list, cidKind, nums
 					run("v2.handleTransactionList", fmt.Sprintf("txs=%v/cid=%s/msg=%d-of-%d", list, cidKind, nums[0], nums[1]), func(f *verifC19Fix, c *grpc.StubConnection) (*Envelope, handleFunc) {
@@ -380,16 +409,8 @@ func TestVerifC19V2(t *testing.T) {
 						switch cidKind {
 						case "unknown":
 							cid = []byte("unknown-cid")
-						case "live-listquery":
-							if err := f.p.sendTransactionListQuery(c, []hash.SHA256Hash{f.pendingPublic.Ref(), f.pendingPrivate.Ref(), f.orphan.Ref(), f.child.Ref()}); err != nil || len(c.SentMsgs) == 0 {
-								t.Fatalf("harness: could not open a list query conversation: %v", err)
-							}
-							cid = c.SentMsgs[len(c.SentMsgs)-1].(*Envelope).GetTransactionListQuery().ConversationID
-						case "live-rangequery":
-							if err := f.p.sendTransactionRangeQuery(c, 0, dag.MaxLamportClock); err != nil || len(c.SentMsgs) == 0 {
-								t.Fatalf("harness: could not open a range query conversation: %v", err)
-							}
-							cid = c.SentMsgs[len(c.SentMsgs)-1].(*Envelope).GetTransactionRangeQuery().ConversationID
+						case "live-listquery", "live-rangequery", "live-state":
+							cid = verifC19OpenConversation(t, f, c, cidKind, 0)
 						}
 						var txs []*Transaction
 						for _, n := range list {
